@@ -504,6 +504,8 @@ structure Obj where
   payload : List Int          -- pitch/voice/staff of notes; the compared fields of signatures and clefs
   nid : Option String
   refs : List (List Nat)      -- per referential attribute: positions of the targets in the object list
+  cls : Nat := 0              -- rank of the object's class in `[Note] + list(iter_subclasses(Note))` (0 = Note, 1 = GraceNote):
+                              -- the order in which `part.notes` lists objects that start at the same time point
   deriving Repr, Inhabited
 
 structure OObj where
@@ -516,6 +518,7 @@ structure OObj where
   nid : Option String
   refs : List (List (Option Nat))   -- target = the copy, made in the same visit, of that original; or None
   extra : Bool := false       -- the fermata copied from the segment's end point
+  cls : Nat := 0              -- class rank of the original (see `Obj.cls`)
   deriving Repr, Inhabited
 
 structure APart where
@@ -551,7 +554,7 @@ def prevSig (out : List OObj) (k : Kind) (t : Int) : Option OObj :=
 /-- `copy(o)` registered at the shifted start (and end) -/
 def mkCopy (i k : Nat) (o : Obj) (delta : Int) : OObj :=
   { orig := i, visit := k, kind := o.kind, start := o.start + delta, stp := o.stp.map (· + delta),
-    payload := o.payload, nid := o.nid, refs := o.refs.map (·.map some) }
+    payload := o.payload, nid := o.nid, refs := o.refs.map (·.map some), cls := o.cls }
 
 /-- "don't repeat time sig / key sig / clef if it hasn't changed" -/
 def sigSkip (seen : List OObj) (o : Obj) (t : Int) : Bool :=
@@ -668,10 +671,17 @@ def variant (p : APart) (vs : List Visit) : Variant :=
 
 /-! ## 4. Note ids -/
 
-/-- rank (from 1) of `o` among the notes with the same id, ordered by start time (stable) -/
+/-- `q` (at position `q.1` of the object list) comes before `o` (at position `pos`) in
+`sorted(part.notes, key=start.t)`: `part.notes` = `iter_all(Note, include_subclasses=True)` goes through the time points
+in order and lists, at one time point, first the objects of class `Note`, then those of each subclass
+(`iter_subclasses`: GraceNote), each class in the order of registration; `list.sort` is stable -/
+def noteBefore (q : Nat × OObj) (pos : Nat) (o : OObj) : Bool :=
+  q.2.start < o.start || (q.2.start = o.start && (q.2.cls < o.cls || (q.2.cls = o.cls && q.1 < pos)))
+
+/-- rank (from 1) of `o` among the notes with the same id, in the order of `part.notes` sorted by start time (stable) -/
 def idRank (out : List OObj) (pos : Nat) (o : OObj) : Nat :=
   1 + ((enum 0 out).filter fun q =>
-    q.2.kind = .note && q.2.nid = o.nid && (q.2.start < o.start || (q.2.start = o.start && q.1 < pos))).length
+    q.2.kind = .note && q.2.nid = o.nid && noteBefore q pos o).length
 
 /-- `update_note_ids_after_unfolding` -/
 def suffixIds (out : List OObj) : List OObj :=
